@@ -494,6 +494,74 @@ func (m *Model) fillHandler(hi *HandlerInfo) {
 		}
 		return true
 	})
+	setReq := func(obj types.Object) {
+		if obj == nil || hi.ReqVar != nil {
+			return
+		}
+		t := obj.Type()
+		if pt, ok := t.(*types.Pointer); ok {
+			t = pt.Elem()
+		}
+		nt, ok := t.(*types.Named)
+		if !ok {
+			return
+		}
+		hi.ReqVar, hi.ReqType = obj, nt
+		if st, ok := nt.Underlying().(*types.Struct); ok {
+			for i := 0; i < st.NumFields(); i++ {
+				if st.Field(i).Name() == "RequestId" {
+					hi.HasReqID = true
+				}
+			}
+		}
+	}
+	if hi.ReqVar == nil {
+		// decoded through a helper: decodeX(msg, &req) or req, err := decodeX[T](msg)
+		fn.scanDecodeTargets()
+		for obj := range fn.root().decodeTargets {
+			setReq(obj)
+		}
+		if hi.ReqVar == nil {
+			ast.Inspect(fn.Body, func(n ast.Node) bool {
+				as, ok := n.(*ast.AssignStmt)
+				if !ok || len(as.Rhs) != 1 || len(as.Lhs) < 1 {
+					return true
+				}
+				call, ok := ast.Unparen(as.Rhs[0]).(*ast.CallExpr)
+				if !ok {
+					return true
+				}
+				g, _ := calleeObj(info, call).(*types.Func)
+				if g == nil || fn.progFuncs == nil {
+					return true
+				}
+				gd := fn.progFuncs[g]
+				if gd == nil || gd.Body == nil {
+					return true
+				}
+				gd.scanDecodeTargets()
+				returnsDecoded := false
+				ast.Inspect(gd.Body, func(m2 ast.Node) bool {
+					if rs, ok := m2.(*ast.ReturnStmt); ok && len(rs.Results) >= 1 {
+						if id, ok := ast.Unparen(rs.Results[0]).(*ast.Ident); ok && gd.root().decodePtrTargets[gd.Info().Uses[id]] {
+							returnsDecoded = true
+						}
+					}
+					return true
+				})
+				if returnsDecoded {
+					if id, ok := ast.Unparen(as.Lhs[0]).(*ast.Ident); ok {
+						obj := info.Defs[id]
+						if obj == nil {
+							obj = info.Uses[id]
+						}
+						setReq(obj)
+					}
+				}
+				return true
+			})
+		}
+	}
 }
 
 func (hi *HandlerInfo) Key() string {
